@@ -615,6 +615,9 @@ def clones_of_probe(p):
     from contracts.backend import unknown
     if "generated" in p:
         kw = randspec.make(p["generated"])
+        if p.get("prop") in ("C10", "C12"):
+            ini, _ = randspec.make_initial(p["generated"], kw)
+            kw = dict(kw, initial=ini, initial_after=0)
         fi = dict(generated=p["generated"], clones=2)
     else:
         from contracts.spec import own_horizon_kw
@@ -622,35 +625,20 @@ def clones_of_probe(p):
         fi = dict(template=dict(method=p["method"], T=p["T"], t0=p["t0"], horizon="the template's own parameter symbols"), clones=2)
     try:
         with contextlib.redirect_stdout(io.StringIO()):
-            tmpl = Spec(**kw)
-            tmpl.build(template=True)
-            master = Ocp()
-            cls = [master.stage(tmpl.ocp), master.stage(tmpl.ocp)]
-            pvs = []
-            for j, cl in enumerate(cls):
-                pv = {}
-                for kind in ("", "control", "control+"):
-                    for q, psym in enumerate(tmpl.sym[("p", kind)]):
-                        cols = {"": 1, "control": tmpl.N, "control+": tmpl.N + 1}[kind]
-                        val = unknown("clone%d_pval_%s%d" % (j, kind.replace("+", "plus"), q), psym.shape[0], psym.shape[1] * cols)
-                        cl.set_value(psym, val)
-                        pv[(kind, q)] = val
-                for key in ("T", "t0"):
-                    if "p_" + key in tmpl.sym:
-                        val = unknown("clone%d_pval_%s" % (j, key), positive=(key == "T"))
-                        cl.set_value(tmpl.sym["p_" + key], val)
-                        pv[key] = val
-                pvs.append(pv)
+            from contracts.spec import build_clones
+            master, tmpl, bs = build_clones(kw, divergent=bool(p.get("divergent")))
+            if p.get("divergent"):
+                fi = dict(fi, second_clone="after cloning: own dynamics and derivative scales, one more constraint, objective term and guess")
             master.solver("ipopt")
             master._transcribed
             aug = master._augmented
             opti = aug._method.opti
             J, exp, tags, parts = 0, [], [], []
-            for j in range(2):
-                b = tmpl.bound_to(aug._stages[j], pvals=pvs[j])
-                b.opti = opti
-                parts.append((b, aug._stages[j]._method))
-                orc = Oracle(b, aug._stages[j]._method).expected()
+            for j, b_ in enumerate(bs):
+                b_.ocp = aug._stages[j]
+                b_.opti = opti
+                parts.append((b_, aug._stages[j]._method))
+                orc = Oracle(b_, aug._stages[j]._method).expected()
                 J = J + orc.J
                 for r in orc.rows:
                     for q in range(ca.MX(r["r"]).numel()):
@@ -676,6 +664,23 @@ def clones_of_probe(p):
                         bad.append(dict(clone=j, parameter="%s #%d" % (kind or "global", q), member=k_, observed=got.tolist(), value_given_to_this_clone=w.tolist()))
     if bad:
         return dict(status="confirmed", failing_input=fi, problems=[dict(what="a clone's solver parameter does not carry the value given to that clone", entries=bad[:6], count=len(bad), checked=n)])
+    from contracts.oracle import expected_initial
+    start = opti.initial()
+    badi, ni = [], 0
+    for j, (sp, meth) in enumerate(parts):
+        for tag, handle, ex in expected_initial(sp, meth, sp.initial_realised):
+            ni += 1
+            try:
+                got = np.array(opti.debug.value(ca.MX(handle), start)).reshape(-1)
+            except Exception as e:
+                badi.append(dict(clone=j, variable="/".join(str(t) for t in tag), observed="cannot be read back: %s" % str(e)[:100]))
+                continue
+            want = np.array(opti.debug.value(ca.MX(ex), start)).reshape(-1)
+            if got.shape != want.shape or np.max(np.abs(got - want)) > 1e-9 * (1 + np.max(np.abs(want))):
+                badi.append(dict(clone=j, variable="/".join(str(t) for t in tag), observed=got.tolist(), expected=want.tolist()))
+    if badi:
+        return dict(status="confirmed", failing_input=dict(fi, guesses=[(str(t), str(v)[:80]) for t, v in bs[-1].initial_realised]),
+                    problems=[dict(what="a clone does not start from the guesses that apply to it", variables=badi[:8], count=len(badi), checked=ni)])
     r = _union_native(opti, J, exp, tags, fi, "two clones", methods=[m_ for _, m_ in parts])
     return r or dict(status="not-reproduced", detail="objective, %d clone rows and %d parameter members agree" % (len(tags), n))
 
